@@ -102,6 +102,10 @@ def run_loop_case(case, sb: Path, slow=None, patch_clock=False):
         settings = sim.make_settings(root, sim.SimUpstream(), nthreads=case.get("nthreads", 4),
                                      rate_limiter=limiter, slow=sf)
         fac = settings.aiofile_factory
+        if fac is None:      # the simulated writer cannot be built (the tool's writer interface changed): a plain holder
+            class _Holder:
+                pass
+            fac = settings.aiofile_factory = _Holder()
         from contextlib import asynccontextmanager
 
         class W:
